@@ -87,6 +87,9 @@ def geometry_hypotheses(fmt, s):
 def run_case(task):
     """task = (fmt, seed, mode, payload).  Returns a dict of counters and findings (picklable)."""
     fmt, seed, mode, payload = task
+    do_model = True
+    if mode == "gen":
+        payload, do_model = payload
     from vlib import c04_gen as G
     out = {"fmt": fmt, "n": 0, "repr": 0, "outside": {}, "viol": [], "corr": [], "model_cases": 0, "model_skipped": 0,
            "meta": None, "geo": [], "sample": None, "strata": []}
@@ -110,7 +113,7 @@ def run_case(task):
             out["viol"].append({"key": key, "what": "%s %s/%s: %s" % (fmt, kind, field, detail), "fmt": fmt, "kind": kind,
                                 "structure": G.describe(s), "seed": seed})
     # ---- correspondence with the Coq model
-    if fmt in MODELLED:
+    if fmt in MODELLED and do_model:
         from vlib import c04_model as M
         view = M.VIEWS[fmt](s)
         if all(M.ascii_ok(x) for x in view):
@@ -166,6 +169,12 @@ def boundary_cases():
     from vlib import c04_gen as G
     from diffpy.structure import Lattice, Structure
     cases = []
+    # empty structures (with and without a title), one atom at the origin
+    for ttl in ("", "empty"):
+        for cell in ((1, 1, 1, 90, 90, 90), (4, 5, 6, 90, 100, 90)):
+            s = Structure(lattice=Lattice(*cell))
+            s.title = ttl
+            cases.append(G.describe(s))
     mags = [0.0, 1e-9, 4.9999e-5, 5.0001e-5, 0.0004999, 0.0005001, 0.99999949, 0.99999951, 0.999999995, 9.9999995, 9.99999951,
             99.9994, 99.9996, 99.99949999, 999.9994, 999.9996, 9999.9994, 1234.5678, 99999.4, 123456.7, 999999.4, 999999.6, 1e7]
     for v in mags:
@@ -242,10 +251,11 @@ def run(ctx, only=None):
     tasks = []
     for fmt in G.FORMATS:
         for i in range(n):
-            tasks.append((fmt, ctx.rng.getrandbits(48), "gen", (i % 3 == 0)))
+            # thorough tier: the (slower) model correspondence runs on every third case, the finder on all
+            tasks.append((fmt, ctx.rng.getrandbits(48), "gen", ((i % 3 == 0), ctx.tier == "quick" or i % 3 == 0)))
     bcases = boundary_cases()
     if ctx.tier == "quick":
-        bcases = bcases[::4]
+        bcases = bcases[:4] + bcases[4::4]
     for fmt in G.FORMATS:
         for d in bcases:
             tasks.append((fmt, 0, "boundary", d))
@@ -321,6 +331,7 @@ def replay(ctx, case):
     problems, info = G.roundtrip_oracle(s, fmt)
     why = G.representable(s, fmt)
     ctx.count(("replay", fmt))
+    ctx.obligation("replay:oracle-ran", True, "replay of one recorded case; run ./check C04 for the full obligations")
     ctx.sample({"format": fmt, "representable": why or True, "problems": [list(p) for p in problems[:5]]})
     if not why:
         for key, kind, field, detail in classify(fmt, s, problems, info):
